@@ -2,6 +2,8 @@ pub mod common;
 pub mod c01;
 pub mod c11;
 pub mod c12;
+pub mod config;
+pub mod multi;
 pub mod c13;
 pub mod subs;
 pub mod queue;
@@ -12,7 +14,7 @@ pub mod pipeprops;
 use crate::profile::Profile;
 
 pub fn all() -> Vec<&'static Profile> {
-    vec![&c01::PROFILE, &pipeprops::C02, &pipeprops::C03, &barrier::C04, &queue::C05, &queue::C06, &pipeprops::C07, &pipeprops::C08, &subs::C09, &subs::C10, &c11::PROFILE, &c12::PROFILE, &c13::PROFILE, &subs::C14, &barrier::C15]
+    vec![&c01::PROFILE, &pipeprops::C02, &pipeprops::C03, &barrier::C04, &queue::C05, &queue::C06, &pipeprops::C07, &pipeprops::C08, &subs::C09, &subs::C10, &c11::PROFILE, &c12::PROFILE, &c13::PROFILE, &subs::C14, &barrier::C15, &config::C16, &config::C17, &multi::C18, &multi::C19]
 }
 
 pub fn by_id(id: &str) -> Option<&'static Profile> {
